@@ -7,9 +7,11 @@ pub const OPEN_HOLE: usize = 0; // `open` replaced an unresolved unifier by a fr
 pub const SHIFT_HOLE: usize = 1; // `signed_shift` adjusted the shift of an unresolved unifier
 pub const CACHE_MISS: usize = 2; // a parsing function ran its body (memo table miss)
 pub const SCAN_STEP: usize = 3; // an `expect_token_*!` recovery scan advanced by one token
+pub const SHIFT_LOCAL_HOLE: usize = 4; // `signed_shift` left an unresolved unifier below the cutoff as is
 
 thread_local! {
-    static COUNTERS: [Cell<u64>; 4] = const { [Cell::new(0), Cell::new(0), Cell::new(0), Cell::new(0)] };
+    static COUNTERS: [Cell<u64>; 5] =
+        const { [Cell::new(0), Cell::new(0), Cell::new(0), Cell::new(0), Cell::new(0)] };
 }
 
 // Increment a counter.
@@ -19,13 +21,14 @@ pub fn bump(counter: usize) {
 
 // Read and reset all the counters.
 #[allow(dead_code)]
-pub fn take() -> [u64; 4] {
+pub fn take() -> [u64; 5] {
     COUNTERS.with(|counters| {
         let values = [
             counters[0].get(),
             counters[1].get(),
             counters[2].get(),
             counters[3].get(),
+            counters[4].get(),
         ];
 
         for counter in counters {
